@@ -3067,7 +3067,16 @@ def rule_nearest_shorter_left_endpoint(col, facts):
             if st[0] == "=" and st[2][0] == "bin" and st[2][1].startswith("Add") and strip_casts(op_expr(f, st[2][3])) == ("k", 1):
                 for _d, e, p in path_conditions(f, i):
                     e = strip_casts(e)
-                    if e[0] == "bin" and ((e[1] == "Lt" and p is True) or (e[1] == "Ge" and p is False)) and "xi" in show(e[3]) and strip_casts(e[2]) == strip_casts(op_expr(f, st[2][2])):
+                    def _is_left_endpoint(x, depth=0):
+                        # the left endpoint `xi`: a value computed from compute_left_endpoint (by name as a
+                        # fallback), directly or through the assignments of a local
+                        x = strip_casts(x)
+                        if any(last_seg(c_[1]) == "compute_left_endpoint" for c_ in expr_calls(x)) or "xi" in show(x):
+                            return True
+                        if x[0] == "var" and depth < 3:
+                            return any(not pr and _is_left_endpoint(rvalue_expr(f, rv, 1, x[1]), depth + 1) for _b, _j, rv, pr in f.defs().get(x[1], []))
+                        return False
+                    if e[0] == "bin" and ((e[1] == "Lt" and p is True) or (e[1] == "Ge" and p is False)) and _is_left_endpoint(e[3]) and strip_casts(e[2]) == strip_casts(op_expr(f, st[2][2])):
                         ok = True
     col.check(R, "compute_nearest_shorter:step-up-below-left-endpoint", ok,
               "no increment of the significand under `significand < xi`: a candidate below the left endpoint of the (narrow) interval of a power of two is kept, the output parses to the predecessor float (2^89 -> 6.189700196426901e26)", f.loc())
